@@ -29,7 +29,7 @@ MIN_EVALUATIONS = {"quick": 500, "thorough": 5000}
 DTYPES = ["bool", "int8", "uint8", "int16", "uint16", "int32", "uint32", "int64", "uint64", "float16", "float32", "float64"]
 INTERVALS = ["manual_none", "manual_lo", "manual_hi", "manual_both", "manual_both_int", "quantile", "quantile_wide", "centered", "centered_hr"]
 STRETCHES = ["linear", "power", "logarithmic", "asinh"]
-FAMILIES = ["uniform", "ties", "wide", "nan", "inf", "halfrange"]
+FAMILIES = ["uniform", "ties", "wide", "nan", "inf", "halfrange", "sparse"]
 MODES = ["data", "direct", "preset"]
 PRESETS = ["linear_auto", "quantile", "linear_minmax", "minmax", "linear_centered", "log_auto", "log_minmax", "power_squared", "power_sqrt", "asinh_centered"]
 STRETCH_CLASSES = ["LinearStretch", "PowerLawStretch", "LogarithmicStretch", "InverseLogarithmicStretch", "InverseHyperbolicSineStretch", "HyperbolicSineStretch"]
@@ -76,6 +76,20 @@ def _gen_values(rng, dt, fam):
     n = int(np.prod(shape))
     if n < 3:
         shape, n = (5,), 5
+    if fam == "sparse":
+        # a flat image with < 2 % outlier pixels: the default quantile limits coincide although the data is not constant
+        shape = (int(rng.integers(8, 13)), int(rng.integers(8, 13)))
+        n = shape[0] * shape[1]
+        if dtype.kind == "b":
+            a = np.zeros(n, bool)
+            a[int(rng.integers(n))] = True
+            return a.reshape(shape)
+        base = int(rng.integers(0, 60))
+        a = np.full(n, base, dtype=np.float64)
+        a[int(rng.integers(n))] = base + int(rng.integers(2, 60)) * (1 if dtype.kind == "u" or rng.random() < 0.5 else -1)
+        if dtype.kind == "u":
+            a = np.abs(a)
+        return a.astype(dtype).reshape(shape)
     if dtype.kind == "b":
         a = rng.integers(0, 2, size=n).astype(bool)
         a[:2] = [False, True]
@@ -143,6 +157,13 @@ def _cfg(rng, iv, st, data):
         b = a + span * float(rng.uniform(0.05, 0.9)) + (1e-6 if span == 0 else 0.0)
         if iv == "manual_both_int" or (data.dtype.kind in "iu" and rng.random() < 0.5 and iv != "manual_none"):
             a, b = int(np.floor(a)), int(np.floor(a)) + max(1, int(np.ceil(b - a)))
+        if lo < 0 < hi and rng.random() < 0.3:
+            # a limit of exactly zero (int or float) is a limit like any other
+            z = 0 if rng.random() < 0.5 else 0.0
+            if iv == "manual_lo" or (iv != "manual_hi" and rng.random() < 0.5):
+                a, b = z, (max(b, 0.1 * hi) if b > 0 else 0.5 * hi)
+            else:
+                a, b = (min(a, 0.1 * lo) if a < 0 else 0.5 * lo), z
         if iv in ("manual_lo", "manual_both", "manual_both_int"):
             kw["vmin"] = a
         if iv in ("manual_hi", "manual_both", "manual_both_int"):
@@ -243,6 +264,22 @@ def _run_norm(spec, idx, ctx):
     out = norm(use)
     ctx.check(np.array_equal(keep, use, equal_nan=True), "input_mutated", "normalisation modified its input array", dtype=str(use.dtype), interval=spec["interval"], stretch=spec["stretch"], mode=mode)
     _judge(ctx, spec, use, norm, out, "data")
+    # limits the caller asked for are the interval's limits: data at or below a requested vmin -> 0, at or above a requested vmax -> 1
+    if mode != "preset" and kw.get("interval_type") == "manual" and (kw.get("vmin") is not None or kw.get("vmax") is not None):
+        rq0, rq1 = kw.get("vmin"), kw.get("vmax")
+        o = np.ma.getdata(out).astype(np.float64)
+        uf = use.astype(np.float64)
+        okf = np.isfinite(uf) & ~np.ma.getmaskarray(out)
+        eff0 = float(rq0) if rq0 is not None else float(uf[np.isfinite(uf)].min())
+        eff1 = float(rq1) if rq1 is not None else float(uf[np.isfinite(uf)].max())
+        if eff0 < eff1:
+            cm = {"dtype": str(use.dtype), "interval": spec["interval"], "stretch": spec["stretch"], "mode": mode}
+            if rq0 is not None:
+                sel = okf & (uf <= eff0)
+                ctx.close(float(np.abs(o[sel]).max()) if sel.any() else 0.0, _tol(use.dtype), "requested_vmin_not_honoured", lambda: "requested vmin=%r: data %r maps to %r" % (rq0, uf[sel][:3].tolist(), o[sel][:3].tolist()), **cm)
+            if rq1 is not None:
+                sel = okf & (uf >= eff1)
+                ctx.close(float(np.abs(o[sel] - 1).max()) if sel.any() else 0.0, _tol(use.dtype), "requested_vmax_not_honoured", lambda: "requested vmax=%r: data %r maps to %r" % (rq1, uf[sel][:3].tolist(), o[sel][:3].tolist()), **cm)
     # limits -> 0 and 1
     fv0, fv1 = float(vmin), float(vmax)
     common = {"dtype": str(use.dtype), "interval": spec["interval"], "stretch": spec["stretch"], "mode": mode}
@@ -324,6 +361,20 @@ def _run_stretch(spec, idx, ctx):
     if not (name == "LinearStretch" and not spec.get("default")):
         ctx.close(max(abs(sy[0]), abs(sy[-1] - 1.0)), 1e-9, "stretch_endpoints", lambda: "%s(%r): s(0)=%r s(1)=%r" % (name, par, sy[0], sy[-1]), **common)
     ctx.close(max(0.0, float(np.max(sy[:-1] - sy[1:]))), 1e-12, "stretch_non_monotone", lambda: "%s(%r)" % (name, par), **common)
+    # history on one object: the fields of these dataclasses are public and mutable; after changing the parameter the declared
+    # inverse must be the inverse of the *current* stretch
+    if name != "LinearStretch":
+        field = "power" if name == "PowerLawStretch" else "a"
+        oldv = getattr(s, field)
+        newv = float(oldv * (3.0 if oldv < 1 else 1 / 3.0))
+        if name == "HyperbolicSineStretch":
+            newv = float(min(max(newv, 0.05), 10.0))
+        setattr(s, field, newv)
+        inv2 = s.inverse
+        a2 = np.asarray(s(np.asarray(inv2(y.copy())).copy()), dtype=np.float64)
+        ctx.close(float(np.max(np.abs(a2 - y))), 1e-8, "stretch_of_inverse_after_update", lambda: "%s: parameter %r -> %r, max|s(s^-1(y))-y|" % (name, oldv, newv), **common)
+        b2 = np.asarray(inv2(np.asarray(s(y.copy())).copy()), dtype=np.float64)
+        ctx.close(float(np.max(np.abs(b2 - y))), 1e-8, "inverse_of_stretch_after_update", lambda: "%s: parameter %r -> %r, max|s^-1(s(y))-y|" % (name, oldv, newv), **common)
     ctx.nontrivial(("stretch_inv", name, "default" if spec.get("default") else "p%d" % (idx % 7)), not spec.get("default"))
     ctx.observe(cls=name, par=par)
 
